@@ -8,6 +8,7 @@ use crate::gen::xz::*;
 use crate::refmodel::model::Props;
 use crate::refmodel::xz::write_xz;
 use crate::runner::*;
+use crate::runner::Property as _;
 use crate::sut::{self, Io, Opts, ReaderKind, Run, Verdict};
 use proptest::prelude::*;
 use serde::{Deserialize, Serialize};
@@ -37,6 +38,8 @@ pub enum AbsInput {
     Lzma2 { chunks: Vec<crate::gen::lzma2::AbsChunk>, raw_api: bool },
     Xz { file: AbsXz, sealed: Option<u16> },
     Random { bytes: Vec<u8>, fmt: u8 },
+    /// LZMA2 stream with one out-of-window reference (from C09's generator)
+    Lzma2Bad { c09: super::c09::Abs, raw_api: bool },
 }
 
 #[derive(Clone, Debug)]
@@ -112,6 +115,18 @@ pub fn build_input(a: &AbsInput, muts: &[AbsMut]) -> (Format, Vec<u8>, Vec<usize
                 Err(_) => (Format::Xz, vec![], vec![], "xz".into()),
             }
         }
+        AbsInput::Lzma2Bad { c09, raw_api } => {
+            use crate::runner::Property;
+            let case = super::c09::C09.concretize(c09);
+            let bytes = super::c09::lzma2_case_bytes(&case).unwrap_or_default();
+            let n = bytes.len();
+            (
+                if *raw_api { Format::Lzma2Raw } else { Format::Lzma2 },
+                bytes,
+                (1..n.min(40)).collect(),
+                "lzma2-out-of-window".into(),
+            )
+        }
         AbsInput::Random { bytes, fmt } => (
             match fmt % 4 {
                 0 => Format::Lzma(Opts::default()),
@@ -140,6 +155,8 @@ pub fn abs_input() -> BoxedStrategy<AbsInput> {
         6 => (abs_xz(3, 2, 8, 3000), prop_oneof![2 => Just(None), 3 => any::<u16>().prop_map(Some)])
             .prop_map(|(file, sealed)| AbsInput::Xz { file, sealed }),
         1 => (random_bytes(100), any::<u8>()).prop_map(|(bytes, fmt)| AbsInput::Random { bytes, fmt }),
+        2 => (super::c09::C09.strategy(crate::runner::Tier::Quick), any::<bool>())
+            .prop_map(|(c09, raw_api)| AbsInput::Lzma2Bad { c09, raw_api }),
     ]
     .boxed()
 }
@@ -215,6 +232,7 @@ impl Property for C13 {
             ("input:lzma", 5000 * k),
             ("input:lzma2", 3000 * k),
             ("input:lzma-raw", 1000 * k),
+            ("input:lzma2-out-of-window", 3000 * k),
             ("opt:ReadHeaderButUseProvided", 1500 * k),
             ("verdict:Ok", 5000 * k),
             ("verdict:Err", 5000 * k),
